@@ -195,6 +195,27 @@ impl Storage {
     pub fn stores_as_values(self) -> Vec<RuntimeBoxedVal> {
         let mut all_values: Vec<RuntimeBoxedVal> = Vec::new();
 
+        #[cfg(smlxl_storage_layout_extractor_verif)]
+        if crate::verif::ordering_on() {
+            let entries: Vec<(RuntimeBoxedVal, Vec<RuntimeBoxedVal>)> =
+                self.known_slots.into_iter().chain(self.symbolic_slots).collect();
+            for (k, vs) in crate::verif::order("storage.stores_as_values", entries, |(k, _)| format!("{k}")) {
+                all_values.extend(vs.into_iter().map(|v| {
+                    let provenance = v.provenance();
+                    RSV::new(
+                        v.instruction_pointer(),
+                        RSVD::StorageWrite {
+                            key:   k.clone(),
+                            value: v,
+                        },
+                        provenance,
+                        None,
+                    )
+                }));
+            }
+            return all_values;
+        }
+
         self.known_slots
             .into_iter()
             .chain(self.symbolic_slots)
